@@ -120,6 +120,7 @@ func LoadRepo(dir string) (*Gen, error) {
 			switch m := m.(type) {
 			case *ssa.Function:
 				g.Funcs[FuncKey(m)] = m
+				g.indexAnon(m)
 			case *ssa.Type:
 				for _, t := range []types.Type{m.Type(), types.NewPointer(m.Type())} {
 					ms := prog.MethodSets.MethodSet(t)
@@ -127,6 +128,7 @@ func LoadRepo(dir string) (*Gen, error) {
 						f := prog.MethodValue(ms.At(i))
 						if f != nil && f.Synthetic == "" && f.Pkg == p {
 							g.Funcs[FuncKey(f)] = f
+							g.indexAnon(f)
 						}
 					}
 				}
@@ -406,6 +408,15 @@ func (g *Gen) funcByShortKey(k string) *ssa.Function {
 		}
 	}
 	return nil
+}
+
+// indexAnon registers the function literals of f (keys parent$1, parent$2, ...): their bodies are verified like any
+// other function, their captured variables are pointers into the enclosing activation
+func (g *Gen) indexAnon(f *ssa.Function) {
+	for _, an := range f.AnonFuncs {
+		g.Funcs[FuncKey(an)] = an
+		g.indexAnon(an)
+	}
 }
 
 func (g *Gen) Family(name, sort string) string {
